@@ -136,11 +136,53 @@ impl Property for C01 {
         "C01"
     }
     fn cases(&self, cfg: &Cfg) -> u64 {
-        Plan::for_tier(cfg.tier, 3_000, 300_000).cases() + cfg.tier.pick(0, 320)
+        Plan::for_tier(cfg.tier, 3_000, 300_000).cases() + cfg.tier.pick(0, 320) + 48
     }
     fn run_case(&self, cfg: &Cfg, i: u64, acc: &mut Acc) {
         let plan = Plan::for_tier(cfg.tier, 3_000, 300_000);
         let planned = plan.cases();
+        if i >= planned + cfg.tier.pick(0, 320) {
+            // a server that REJECTS `idle` (it wants a password the application did not give): the ACK is the reply to
+            // the idle exchange and must never be handed to a caller as the reply to its request, however the
+            // request races with it
+            let k = i - planned - cfg.tier.pick(0, 320);
+            let mut sc = crate::sim::session::Scenario::new("idle-rejected-by-the-server", crate::util::rng::mix(&[cfg.seed, 0x1d1e, k]));
+            sc.epilogue = false;
+            sc.world.password = Some(("not given".into(), crate::sim::world::PasswordVerdict::Accept));
+            sc.world.reply_delay = vec![std::time::Duration::from_millis([0u64, 5, 30, 30, 60, 200][(k % 6) as usize])];
+            sc.world.c2s_latency = vec![std::time::Duration::from_millis(k / 6 % 2 * 3)];
+            let t = [0u64, 1, 10, 29, 30, 31, 45, 100][(k / 6 % 8) as usize];
+            sc.callers.push((std::time::Duration::from_millis(t), vec![crate::sim::session::Step::Do(crate::sim::session::Req::Raw { shape: 1 }), crate::sim::session::Step::Do(crate::sim::session::Req::RawList { n: 3, fail_at: None, shape: 0 })]));
+            if k % 2 == 1 {
+                sc.callers.push((std::time::Duration::from_millis(t + 1), vec![crate::sim::session::Step::Do(crate::sim::session::Req::Raw { shape: 2 })]));
+            }
+            let out = sess::run(&sc);
+            acc.inc("evaluations");
+            acc.inc("sessions_with_idle_rejected_by_the_server");
+            for p in &out.panics {
+                acc.violation(i, None, format!("panic: {}", p), sess::detail(&sc, &out));
+            }
+            for h in &out.hung {
+                acc.violation(i, None, format!("{} never completed although the server answered everything it was sent", h), sess::detail(&sc, &out));
+            }
+            let a = Analysis::new(&out);
+            for cv in a.calls() {
+                acc.inc("calls_checked");
+                match cv.end.as_ref().map(|e| &e.2) {
+                    // the server's answer to the idle exchange
+                    Some(CallResult::ErrResponse { error, .. }) if error.command.as_deref() == Some("idle") => {
+                        acc.violation(i, None, format!("call c{}#{} ({}) was handed the server's reply to the IDLE exchange as the reply to its request: {}", cv.call.caller, cv.call.seq, cv.desc, brief(cv.end.as_ref().map(|e| &e.2).unwrap())), sess::detail(&sc, &out));
+                    }
+                    // a request that did reach this server is refused for lack of permission: its own reply
+                    Some(CallResult::ErrResponse { error, .. }) if error.code == 4 => {}
+                    Some(CallResult::ErrClosed) | Some(CallResult::ErrProtocol(_)) | None => {}
+                    Some(other) => {
+                        acc.violation(i, None, format!("call c{}#{} ({}) resolved with {} although this server refuses every request", cv.call.caller, cv.call.seq, cv.desc, brief(other)), sess::detail(&sc, &out));
+                    }
+                }
+            }
+            return;
+        }
         if i >= planned {
             // real-time multi-thread variant: callers run on 4 worker threads, so requests are enqueued
             // through tokio's channel from truly parallel threads; wall clock is a watchdog only
@@ -205,7 +247,7 @@ impl Property for C01 {
         }
         Meta {
             level: "exploration",
-            rule: "same session engine and scenarios as C05 (34 directed scenarios x variants + bounded-exhaustive timing grids (request at 50..70 ms x notification at 50..70 ms at 1 ms resolution x wire latency x idle-reply chopping; second request and notification at -5..+5 ms around the end of the re-idle window) x select! seeds + seeded random: 1-6 callers through client clones, raw commands and lists, pipelined futures, cancellation after 0..2D, typed tuples/vectors, replies 20 B - 9 KiB incl. binary and idle-look-alike replies, all segmentations, notifications racing with requests); every request carries a unique id (caller, seq) in its arguments and the simulated server's reply is a pure function of that id, recomputed by the checker: every resolved call must carry exactly its own reply (frames, field order, values, binary), a list failing at index f must give the server's ACK (code, index f, command, message) plus exactly the frames 0..f, the request lines of one caller must reach the server in issue order, nothing may hang, cancelled calls must not disturb the others; non-trivial = session with overlap (P1,P2,P6,P7,P9,P12); distinct by interleaving signature".into(),
+            rule: "same session engine and scenarios as C05 (35 directed scenarios x variants + bounded-exhaustive timing grids (request at 50..70 ms x notification at 50..70 ms at 1 ms resolution x wire latency x idle-reply chopping; second request and notification at -5..+5 ms around the end of the re-idle window) x select! seeds + seeded random: 1-6 callers through client clones, raw commands and lists, pipelined futures, cancellation after 0..2D, typed tuples/vectors, replies 20 B - 9 KiB incl. binary and idle-look-alike replies, all segmentations, notifications racing with requests); every request carries a unique id (caller, seq) in its arguments and the simulated server's reply is a pure function of that id, recomputed by the checker: every resolved call must carry exactly its own reply (frames, field order, values, binary), a list failing at index f must give the server's ACK (code, index f, command, message) plus exactly the frames 0..f, the request lines of one caller must reach the server in issue order, nothing may hang, cancelled calls must not disturb the others; non-trivial = session with overlap (P1,P2,P6,P7,P9,P12); distinct by interleaving signature".into(),
             nontrivial_set: "nontrivial",
             assumptions: vec![
                 "simulated server as in C05; a cancelled call may or may not reach the server".into(),
